@@ -81,6 +81,13 @@ def run(chk, replay=None):
         chk.violation({"class": "grammar-shape", "what": chk.proof.get("where", "") + " " + chk.proof.get("failure", "")[-200:]},
                       {"broken": "Properties/C17.v no longer checks against the regenerated grammar (keyword boundaries / literal order / name rules)", "detail": chk.proof.get("failure", "")[-2500:]}, no_input=True)
 
+    # programs in which a name is re-bound at another type in a nested scope: acceptance must not depend on the bound names
+    from checks.c08 import Prog as _Prog
+    for i, (tag, text) in enumerate(corelib.scope_type_family()):
+        if tag == "W":
+            q = _Prog(text, [], "scope-type/%d" % i)
+            q.fns, q.aliases = [], []
+            progs.append(q)
     # ---- D: consistent renaming, alias inlining and re-layout keep acceptance and the compiled program (CMR + encoding)
     base = impl("core", ["(commit %s %s 0)" % (quote(g.text), corelib.bindings_sx([(n, v) for (n, _, v) in g.params])) for g in progs])
     jobs = []
